@@ -10,7 +10,8 @@ EXPLANATION = (
     "platform-dependent float function (transcendentals, powf/powi, fused multiply-add, hardware sqrt) is reachable from "
     "the math crates, the fixed-point module or the ABI fixed codec; the one software root is libm::sqrtf; (R5) the PRNG "
     "and trig tables use no mutable or interior-mutable statics. The numerical values (oddness, range, golden bits) and "
-    "integer overflow behaviour across profiles are NOT decided."
+    "integer overflow behaviour across profiles in general are NOT decided (only the abs/negation clause of round 4 is)."
+    ' Round 4: (R6) sibling agreement — every float division by a computed value in the math crates is dominated by a comparison on that same value (exception: the Div operator itself); (R4) no overflow-panicking signed abs()/pow() in the math crates, and overflow-checked negations are an enumerated, reasoned set (debug builds panic where release wraps: a build-profile-dependent result).'
 )
 ASSUMPTIONS = ["IEEE-754 basic operations are bit-stable across targets (no fast-math in Rust)", "libm::sqrtf is a pure software implementation"]
 FLOOR = 14
